@@ -326,8 +326,8 @@ def install_stubs(stubs):
     return undo
 
 
-def replay_contract(contract, model, stubs, clause=None):
-    """-> dict(confirmed=bool|None, detail=..., failed=[clauses])"""
+def replay_contract(contract, model, stubs, clause=None, stash=None):
+    """-> dict(confirmed=bool|None, detail=..., failed=[clauses]); `stash` (a dict) receives the raw result and context"""
     undo = install_stubs(stubs)
     try:
         ctx = Ctx([], opts=dict(getattr(contract, "opts", {}) or {}))
@@ -351,6 +351,8 @@ def replay_contract(contract, model, stubs, clause=None):
             val, kind, exc = None, "raise", type(e)
         if stub_bypassed():
             return dict(confirmed=None, detail="the code computed HMAC-SHA512 without the substituted PRF: sample discarded")
+        if stash is not None:
+            stash.update(value=val, ctx=ctx, kind=kind)
         lifted = M.lift_all(ctx, val)
         out = Outcome(kind, value=lifted, exc_cls=exc)
         failed = []
@@ -381,11 +383,90 @@ def replay_contract(contract, model, stubs, clause=None):
         undo()
 
 
+def canon(ctx, v, depth=0):
+    """canonical plain form of an interpreter value (heap refs, ropes, structured strings) or of a native value"""
+    from pyvc.logic import Rope, simplify_native, is_sym
+    from pyvc.engine import Ref, HObj, HList, HDict, HBytesIO, ModelObj, SStr
+    import z3, io
+    SKIP = ("parent", "children", "_parent", "_children")
+    if depth > 7:
+        return "..."
+    v = simplify_native(v)
+    if is_sym(v):
+        v = simplify_native(z3.simplify(v))
+    if isinstance(v, SStr) and v.native() is not None:
+        v = v.native()
+    if isinstance(v, Rope) and v.is_concrete():
+        v = v.native()
+    if isinstance(v, Ref):
+        o = ctx.heap[v.oid]
+        if isinstance(o, HObj):
+            return ("obj", o.cls.__name__, tuple(sorted((k, canon(ctx, x, depth + 1)) for k, x in o.fields.items() if k not in SKIP)))
+        if isinstance(o, HList):
+            if o.base is not None:
+                return ("list+", len(o.items))
+            return ("seq", tuple(canon(ctx, x, depth + 1) for x in o.items))
+        if isinstance(o, HDict):
+            return ("dict", tuple((canon(ctx, k, depth + 1), canon(ctx, x, depth + 1)) for k, x in o.d.items()))
+        if isinstance(o, HBytesIO):
+            return ("stream", canon(ctx, o.pos))
+        return ("heap", type(o).__name__)
+    if isinstance(v, bool) or v is None:
+        return v
+    if isinstance(v, (int, str, bytes)):
+        return v
+    if isinstance(v, bytearray):
+        return bytes(v)
+    if isinstance(v, (list, tuple)):
+        return ("seq", tuple(canon(ctx, x, depth + 1) for x in v))
+    if isinstance(v, dict):
+        return ("dict", tuple((canon(ctx, k, depth + 1), canon(ctx, x, depth + 1)) for k, x in v.items()))
+    if isinstance(v, io.BytesIO):
+        return ("stream", v.tell())
+    if isinstance(v, ModelObj):
+        return ("model", v.kind)
+    if type(v).__name__ == "SymPt":
+        return ("pt", canon(ctx, getattr(v, "t", None)))
+    if type(v).__module__.startswith("btc_hd_wallet"):
+        d = dict(getattr(v, "__dict__", {}))
+        for klass in type(v).__mro__:
+            for k in getattr(klass, "__slots__", ()):
+                if k != "__weakref__" and hasattr(v, k):
+                    d[k] = getattr(v, k)
+        return ("obj", type(v).__name__, tuple(sorted((k, canon(ctx, x, depth + 1)) for k, x in d.items() if k not in SKIP)))
+    if type(v).__module__.startswith("ecdsa"):
+        try:
+            return ("ec", v.to_string() if hasattr(v, "to_string") else (v.x(), v.y()))
+        except Exception:
+            return ("ec", type(v).__name__)
+    return ("other", type(v).__name__, str(v)[:80])
+
+
+def _wild(x):
+    return isinstance(x, tuple) and x and (x[0] == "model" or (x[0] == "other" and x[1] in ("Rope", "SStr", "ArithRef", "BoolRef", "OStr", "Dec")))
+
+
+def _same(x, y):
+    """structural equality; a modelled library value / an uninterpreted term on the interpreter side is an
+    abstraction with nothing to compare"""
+    if _wild(x):
+        return True
+    if isinstance(x, tuple) and isinstance(y, tuple):
+        return len(x) == len(y) and all(_same(a, b) for a, b in zip(x, y))
+    return x == y
+
+
+def deep_same(ctx_a, a, ctx_b, b):
+    ca, cb = canon(ctx_a, a), canon(ctx_b, b)
+    return _same(ca, cb), ca, cb
+
+
+
 def engine_outcome(contract, model, stubs):
     """the engine used as an INTERPRETER (no folding: every repository function is executed by the engine) on the
     concrete inputs of a counter-model -> ("return", None) | ("raise", cls) | None when it cannot run them"""
     from .engine import PyRaise, Undecided, PathCut, PathLimit, contains_sym
-    if hasattr(contract, "run") or hasattr(contract, "run_real"):
+    if hasattr(contract, "run_real") and not hasattr(contract, "run"):
         return None
     undo = install_stubs(stubs)
     try:
@@ -396,10 +477,13 @@ def engine_outcome(contract, model, stubs):
             return None
         f = resolve_target(contract.target)
         try:
-            ctx.call_value(f, args, kwargs)
-            return ("return", None)
+            if hasattr(contract, "run"):
+                v = contract.run(ctx, f, args, kwargs, I)          # the contract's own way of calling (mocked layers)
+            else:
+                v = ctx.call_value(f, args, kwargs)
+            return ("return", None, ctx, v)
         except PyRaise as e:
-            return ("raise", e.exc_cls)
+            return ("raise", e.exc_cls, ctx, None)
         except (Undecided, PathCut, PathLimit, NotImplementedError):
             return None
     except Exception:
